@@ -11,6 +11,7 @@ import numpy as np
 import vlib
 
 EPS = np.finfo(float).eps
+BWD_C = 64.0
 KNOWN_ROUND_DOWN = 'order-rounded-down'
 
 
@@ -143,16 +144,23 @@ def check_config(rec, rep, stats, rts, first_pass, shared=None):
             return
         M = fdm.LogRule._fd_matrix(rx, rec['parity'], rec['nterms'])
         kappa = np.linalg.cond(M)
-        if not np.isfinite(kappa) or kappa * EPS > 1e-4:
-            stats['skipped_illconditioned'] += 1
+        if not np.isfinite(kappa) or kappa > 1e14:
+            stats['skipped_illconditioned'] += 1      # beyond 1e14 numpy.linalg.pinv (rcond 1e-15) starts discarding singular values: no rule to speak of
             continue
         res = moment_residuals(w, rec['exps'], rec['c0'], Fraction(rx))
         bad = None
+        # the weights are one row of pinv(M) computed by an SVD: backward stable, so the moment equations hold up to
+        # C*eps*||M||*||w|| however ill-conditioned M is; for well-conditioned M the sharper forward bound is used too
+        bwd = BWD_C * EPS * np.linalg.norm(M, 2) * np.linalg.norm(w, 2)
+        illc = kappa * EPS > 1e-4
+        if illc:
+            stats['illconditioned_backward_only'] += 1
         for j, (s, sa) in enumerate(res):
             target = rec['flip'] if j == rec['rindex'] else 0
             err = abs(float(s - target))
-            tol = 8 * EPS * kappa * max(float(sa), 1.0)
+            tol = bwd if illc else min(bwd, 8 * EPS * kappa * max(float(sa), 1.0))
             stats['max_moment_ratio'] = max(stats['max_moment_ratio'], err / tol)
+            stats['max_backward_ratio'] = max(stats['max_backward_ratio'], err / bwd * BWD_C)
             if err > tol:
                 bad = (j, err, tol)
                 break
@@ -245,7 +253,7 @@ def run(tier, rep):
     res = tlc_cases(tier)
     from numdifftools import finite_difference as fdm
     stats = dict(dispatch=0, signature=0, weights=0, exact_weight_rules=0, end_to_end=0, rounded_down=0,
-                 skipped_illconditioned=0, residual_undecided=0, residual_powers=0, max_moment_ratio=0.0, max_e2e_ratio=0.0)
+                 skipped_illconditioned=0, illconditioned_backward_only=0, max_backward_ratio=0.0, residual_undecided=0, residual_powers=0, max_moment_ratio=0.0, max_e2e_ratio=0.0)
     rts = ratios(tier, seed)
     recs = sorted(res.records, key=lambda r: (r['m'], r['n'], r['o']))
     # pass 1: cache exactly as the import left it; pass 2: cleared cache, reverse order (same key reused both ways)
@@ -267,7 +275,7 @@ def run(tier, rep):
                     distinct_nontrivial=len({(r['m'], r['n'], r['o']) for r in recs if r['nterms'] > 1}),
                     rule='one case per (method, n, order) emitted by TLC; non-trivial = rule with more than one weight',
                     **stats)
-    assumptions = ['numpy/scipy arithmetic as executed', 'tolerances: 8*eps*cond(M)*sum|w||M| for moment equations, 64*eps*cond for end-to-end',
+    assumptions = ['numpy/scipy arithmetic as executed', 'tolerances: moment equations min(8*eps*cond(M)*sum|w||M|, 64*eps*||M||*||w||) (backward-stable SVD; measured worst 1.6*eps*||M||*||w||), the backward bound alone once cond*eps > 1e-4; 64*eps*cond for end-to-end',
                    'step ratios: fixed grid + %d seeded random reals in (1.05,10]' % (len(rts) - 9),
-                   'ill-conditioned systems (cond*eps > 1e-4) are skipped and counted']
+                   'systems with cond(M) > 1e14 (where numpy.linalg.pinv itself starts truncating) are skipped and counted; end-to-end checks skip cond*eps > 1e-4']
     return coverage, assumptions
